@@ -16,6 +16,7 @@
 package main
 
 import (
+	"context"
 	"errors"
 	"fmt"
 	"io"
@@ -81,10 +82,16 @@ func vHookReset() {
 }
 
 func verifPoint(label string, root string) {
-	verifPointErr(label, root)
+	verifPointErr(nil, label, root)
 }
 
-func verifPointErr(label string, root string) error {
+// verifPointCtx: a point inside a method that has the request's context (Compare, WriteBlock, ...); the
+// context identifies the request when two of them run concurrently (vScheduler.byCtx).
+func verifPointCtx(ctx context.Context, label string, root string) {
+	verifPointErr(ctx, label, root)
+}
+
+func verifPointErr(ctx context.Context, label string, root string) error {
 	h := vHook
 	h.mu.Lock()
 	h.seen[label]++
@@ -113,7 +120,7 @@ func verifPointErr(label string, root string) error {
 		cancelFn()
 	}
 	if sched != nil {
-		sched.arrive(label, root)
+		sched.arrive(ctx, label, root)
 	}
 	if inject {
 		return vErrInjected
@@ -122,6 +129,7 @@ func verifPointErr(label string, root string) error {
 }
 
 type vChunkWriter struct {
+	ctx    context.Context
 	method string
 	root   string
 	w      io.Writer
@@ -130,7 +138,7 @@ type vChunkWriter struct {
 
 func (c *vChunkWriter) Write(p []byte) (int, error) {
 	c.k++
-	if err := verifPointErr(fmt.Sprintf("%s.Write#%d", c.method, c.k), c.root); err != nil {
+	if err := verifPointErr(c.ctx, fmt.Sprintf("%s.Write#%d", c.method, c.k), c.root); err != nil {
 		return 0, err
 	}
 	return c.w.Write(p)
@@ -138,6 +146,10 @@ func (c *vChunkWriter) Write(p []byte) (int, error) {
 
 func verifWriter(method string, root string, w io.Writer) io.Writer {
 	return &vChunkWriter{method: method, root: root, w: w}
+}
+
+func verifWriterCtx(ctx context.Context, method string, root string, w io.Writer) io.Writer {
+	return &vChunkWriter{ctx: ctx, method: method, root: root, w: w}
 }
 
 // ---------------------------------------------------------------------------------------------
@@ -165,6 +177,8 @@ type vScheduler struct {
 	wake     chan struct{}   // signalled on every park / done
 	executed []string        // "actor:label@vol" in release order
 	unknown  map[string]bool // labels of known prefixes outside the alphabet (drift information)
+	byCtx    bool            // two requests of one kind: the n-th distinct request context seen is actor <name><n>
+	ctxs     []context.Context
 }
 
 func vNewScheduler(actorOf map[string]string, alphabet map[string]bool, vols map[string]int) *vScheduler {
@@ -179,13 +193,26 @@ func (s *vScheduler) signal() {
 	}
 }
 
-func (s *vScheduler) arrive(label, root string) {
+func (s *vScheduler) arrive(ctx context.Context, label, root string) {
 	i := strings.Index(label, ".")
 	if i < 0 {
 		return
 	}
 	s.mu.Lock()
 	actor, ok := s.actorOf[label[:i]]
+	if ok && s.byCtx && ctx != nil {
+		n := -1
+		for k, c := range s.ctxs {
+			if c == ctx {
+				n = k
+			}
+		}
+		if n < 0 {
+			s.ctxs = append(s.ctxs, ctx)
+			n = len(s.ctxs) - 1
+		}
+		actor = fmt.Sprintf("%s%d", actor, n+1)
+	}
 	if !ok || s.free[actor] {
 		s.mu.Unlock()
 		return
@@ -268,7 +295,14 @@ func (s *vScheduler) freeAll() {
 	for a := range s.actorOf {
 		_ = a
 	}
+	names := map[string]bool{}
 	for _, a := range s.actorOf {
+		names[a] = true
+		for k := 1; k <= 4; k++ {
+			names[fmt.Sprintf("%s%d", a, k)] = true
+		}
+	}
+	for a := range names {
 		s.free[a] = true
 		if p := s.parked[a]; p != nil {
 			s.executed = append(s.executed, fmt.Sprintf("%s:%s@%d", a, p.label, p.vol))
